@@ -281,6 +281,8 @@ def write_evidence(pid, tier, seed, level, coverage, wall, violations=0, assumpt
     if ALT:      # trial runs against a scratch worktree never touch the committed evidence
         EVID = os.path.join(OUT, "evidence-alt")
     os.makedirs(EVID, exist_ok=True)
+    if isinstance(coverage.get("samples"), list) and not coverage["samples"]:
+        raise Infra("%s: the run recorded no sample event (drivers killed or empty traces) - no evidence written" % pid)
     ev = {"property_id": pid, "tier": tier, "seed": int(seed), "level": level,
           "coverage": coverage, "assumptions": list(assumptions), "wall_s": round(wall, 2),
           "violations": int(violations)}
